@@ -12,11 +12,11 @@ import (
 // FieldCopy describes how a copy/clone/restore function treats one field.
 type FieldCopy struct {
 	Field    string
-	Assigned bool   // some store (or whole-struct copy) sets it
-	FromSame bool   // the stored value derives from the same-named field of the source
-	Alias    bool   // reference-typed field stored as a direct load of the source's field
-	Fresh    bool   // reference-typed field rebuilt (make / append(nil,…) / clone call / nil)
-	RefType  bool   // slice, map or pointer (shares memory when copied by value)
+	Assigned bool // some store (or whole-struct copy) sets it
+	FromSame bool // the stored value derives from the same-named field of the source
+	Alias    bool // reference-typed field stored as a direct load of the source's field
+	Fresh    bool // reference-typed field rebuilt (make / append(nil,…) / clone call / nil)
+	RefType  bool // slice, map or pointer (shares memory when copied by value)
 	Pos      token.Pos
 	Detail   string
 }
@@ -26,7 +26,8 @@ type FieldCopy struct {
 //
 // dstIsResult=true  : the destination is a struct allocated in fn (clone style)
 // dstIsResult=false : the destination is the receiver and the source is another
-//                     value of the same type (restore style).
+//
+//	value of the same type (restore style).
 func AnalyseStructCopy(fn *ssa.Function, st *types.Named, dstIsResult bool) (map[string]*FieldCopy, error) {
 	str, ok := st.Underlying().(*types.Struct)
 	if !ok {
